@@ -65,8 +65,14 @@ def compile_cases(cases: list, chunk: int = 0, roundtrip: bool = False) -> list:
     return [r for part in par.pmap(_compile_chunk_rt if roundtrip else _compile_chunk, chunks, chunk=1) for r in part]
 
 
-def tlc_verdicts(records: list, ctx, tag: str) -> dict:
-    """Has TLC evaluate PageSem on every record. -> {id: dict(res, nexp, nobs, bad={(note#, field)})}"""
+def tlc_verdicts(records: list, ctx, tag: str, batch: int = 4000) -> dict:
+    """Has TLC evaluate PageSem on every record (in batches of one JVM each).
+    -> {id: dict(res, nexp, nobs, bad={(note#, field)})}"""
+    if len(records) > batch:
+        out = {}
+        for i in range(0, len(records), batch):
+            out.update(tlc_verdicts(records[i:i + batch], ctx, f"{tag}-{i // batch}", batch))
+        return out
     f = tlc.scratch_root() / f"page-trace-{tag}.ndjson"
     with open(f, "w") as fh:
         for r in records:
